@@ -62,7 +62,7 @@ type Hist struct {
 // Case is one point of the enumerated space.
 type Case struct {
 	Family      string `json:"family"`
-	DS          string `json:"ds"`           // "osm" = osm.HistoryDatasource, "custom" = own HistoryDatasourcer
+	DS          string `json:"ds"`           // "osm" = osm.HistoryDatasource, "custom" = own HistoryDatasourcer, "list-split" / "list-rr" = OSM.HistoryDatasource() of one element list in which the versions of an id are not adjacent
 	Ignore      bool   `json:"ignore"`       // IgnoreMissingChildren(true)
 	ExplicitOff bool   `json:"explicit_off"` // pass IgnoreMissingChildren(false) instead of no option
 	EmptyBlocks bool   `json:"empty_blocks"` // element-less blocks are &osm.OSM{} instead of nil
@@ -476,7 +476,73 @@ func featureID(kind int, id int64) osm.FeatureID {
 	return osm.RelationID(id).FeatureID()
 }
 
+// listDS builds the datasource the way applications do that have the histories as
+// one element list (a history file, a downloaded extract): an osm.OSM whose node,
+// way and relation lists hold every version, handed to OSM.HistoryDatasource().
+// The versions of one id keep their relative order but need not be adjacent:
+// "split" lists the first half of every history and then the second halves,
+// "rr" deals the histories out one version at a time.
+func listDS(c *Case) (osm.HistoryDatasourcer, error) {
+	var hs [3][]int
+	for i, h := range c.Hist {
+		switch h.State {
+		case "absent":
+			continue
+		case "present":
+			hs[h.Kind] = append(hs[h.Kind], i)
+		default:
+			return nil, fmt.Errorf("an element list cannot serve state %q", h.State)
+		}
+	}
+	o := &osm.OSM{}
+	add := func(hi, vi int) {
+		h := c.Hist[hi]
+		u := h.Versions[vi]
+		switch h.Kind {
+		case 0:
+			o.Nodes = append(o.Nodes, buildNode(h.ID, u, histVisible(u), histMark(u), c.ctHist(u)))
+		case 1:
+			o.Ways = append(o.Ways, buildWay(h.ID, u, histVisible(u), histMark(u), c.ctHist(u)))
+		default:
+			o.Relations = append(o.Relations, buildRelation(h.ID, u, histVisible(u), histMark(u), c.ctHist(u)))
+		}
+	}
+	for kind := 0; kind < 3; kind++ {
+		if c.DS == "list-split" {
+			for _, hi := range hs[kind] {
+				n := len(c.Hist[hi].Versions)
+				for vi := 0; vi < (n+1)/2; vi++ {
+					add(hi, vi)
+				}
+			}
+			for _, hi := range hs[kind] {
+				n := len(c.Hist[hi].Versions)
+				for vi := (n + 1) / 2; vi < n; vi++ {
+					add(hi, vi)
+				}
+			}
+			continue
+		}
+		for vi := 0; ; vi++ {
+			any := false
+			for _, hi := range hs[kind] {
+				if vi < len(c.Hist[hi].Versions) {
+					add(hi, vi)
+					any = true
+				}
+			}
+			if !any {
+				break
+			}
+		}
+	}
+	return o.HistoryDatasource(), nil
+}
+
 func buildDS(c *Case) (osm.HistoryDatasourcer, error) {
+	if c.DS == "list-split" || c.DS == "list-rr" {
+		return listDS(c)
+	}
 	if c.DS == "osm" {
 		ds := &osm.HistoryDatasource{}
 		for _, h := range c.Hist {
@@ -1223,9 +1289,12 @@ func multiOrderUnits(maxPerSlot int) []unit {
 				}
 				return
 			}
-			for _, dsName := range []string{"osm", "custom"} {
+			for _, dsName := range []string{"osm", "custom", "list-split", "list-rr"} {
 				for _, ign := range []bool{false, true} {
 					for _, eb := range []bool{false, true} {
+						if dsName[0] == 'l' && eb {
+							continue
+						}
 						c := &Case{Family: "multi-order", DS: dsName, Ignore: ign, EmptyBlocks: eb}
 						for slot := 0; slot < 9; slot++ {
 							a, kind := slot/3, slot%3
@@ -1275,7 +1344,7 @@ func sameIDUnits() []unit {
 			for _, p := range pairs {
 				kind, a, p := kind, a, p
 				units = append(units, func(emit func(*Case)) {
-					for _, dsName := range []string{"osm", "custom"} {
+					for _, dsName := range []string{"osm", "custom", "list-split", "list-rr"} {
 						for _, ign := range []bool{false, true} {
 							for _, third := range []bool{false, true} {
 								c := &Case{Family: "same-id", DS: dsName, Ignore: ign}
